@@ -1175,3 +1175,35 @@ val bound_side : value -> bool
 val side : expr -> bool
 
 val side_v : value -> bool
+
+val fname : value -> char list
+
+val name_ok : char list -> bool
+
+val names_ok : expr -> bool
+
+val names_ok_v : value -> bool
+
+val sqs : char list -> char list
+
+val int64 : z -> bool
+
+val like_plain : char list -> bool
+
+val bound_int64 : value -> bool
+
+val text_ok : expr -> bool
+
+val text_ok_v : value -> bool
+
+val pnum : nat -> bytes0
+
+val const_param : expr -> value option
+
+val consts_param : expr list -> value list option
+
+val param_toks : nat -> nat -> tok list
+
+val param_asts : nat -> nat -> ast list
+
+val trp : expr -> nat -> ((tok list * ast) * value list) option
